@@ -47,6 +47,12 @@ func c17KeyTagDS(w *core.W, j int) {
 		}
 		key := &dns.DNSKEY{Hdr: dns.RR_Header{Name: g.Name().Pres(), Rrtype: dns.TypeDNSKEY, Class: 1, Ttl: 3600}, Flags: flags, Protocol: proto, Algorithm: alg,
 			PublicKey: base64.StdEncoding.EncodeToString(pub)}
+		if k%5 == 4 {
+			// an owner with raw (unescaped) octets above 0x7F that happen to spell upper-case non-ASCII
+			// letters in UTF-8: RFC 4034 s.6.2 folds A-Z only
+			key.Hdr.Name = []string{"B\xc3\x9cCHER.example.", "\xe2\x84\xaa.Example.", "caf\xc3\x89.\xc3\x80b.ORG.", "\xce\xa9mega.example."}[(k/5)%4]
+			w.Count("ds_raw_8bit_owners", 1)
+		}
 		owner := mustName(key.Hdr.Name)
 		rd := model.KeyRdata(flags, proto, alg, pub)
 		wit := map[string]any{"owner": key.Hdr.Name, "rdata": hx(rd)}
@@ -360,6 +366,10 @@ func c17Keys(w *core.W, j int) {
 	bl := c17KeyBits[alg]
 	bits := bl[(j/len(allAlgs))%len(bl)]
 	k, err := freshKey(alg, bits, "keys.example.", 256+uint16(j%2))
+	if (alg == dns.ECDSAP256SHA256 || alg == dns.ECDSAP384SHA384) && (j/len(allAlgs))%2 == 1 {
+		k, err = shortScalarKey(alg, "keys.example.", 256+uint16(j%2), uint64(w.Seed)*131+uint64(j))
+		w.Count("short_scalar_ecdsa_keys", 1)
+	}
 	if err != nil {
 		w.Inconclusive("keygen:" + err.Error())
 		return
